@@ -89,13 +89,36 @@ def main():
             for t in mod.THEOREMS:
                 res.oblige('theorem %s' % t, False, 'build failed')
 
+    # 3b. corpus: minimised failing inputs of earlier violations (seeded changes, repaired defects) are replayed first;
+    # on a tree where the property holds every one of them passes
+    cdir = os.path.join(common.VERIF, 'corpus', pid)
+    n_corpus = 0
+    if os.path.isdir(cdir) and hasattr(mod, 'replay'):
+        for fn in sorted(os.listdir(cdir)):
+            if not fn.endswith('.json'):
+                continue
+            try:
+                entry = json.load(open(os.path.join(cdir, fn)))
+                out = mod.replay({'input': entry['input'], 'key': entry.get('key')})
+            except Exception as ex:
+                res.notes.append('corpus entry %s could not be replayed: %r' % (fn, ex))
+                continue
+            n_corpus += 1
+            if out.get('fails'):
+                res.oracle_failures.append({'key': 'corpus/' + (entry.get('key') or '?'), 'what': 'corpus input %s (%s) fails again: %s' % (
+                    fn, entry.get('origin', '?'), str(out.get('what', entry.get('what', '')))[:300]), 'input': entry['input']})
+        res.count('corpus-replays', n_corpus)
+
     # 4+5. correspondence and oracle
     try:
         mod.run(ctx)
-    except Exception:
+    except Exception as e:
+        # the code under test behaved in a way the harness cannot digest (or the harness is at fault): either way the
+        # property is no longer shown to hold on this tree - an unfulfilled obligation, followed by the search
         traceback.print_exc()
-        print('INFRASTRUCTURE-ERROR in %s' % pid)
-        sys.exit(2)
+        last = traceback.format_exc().strip().split('\n')
+        res.oblige('correspondence and oracle streams ran to completion', False, ' | '.join(last[-4:])[:1500])
+        broken.append('the check could not complete its streams: %s: %s' % (type(e).__name__, str(e)[:300]))
     res.oblige('correspondence model vs implementation: no disagreement', not res.corr_failures,
                json.dumps(res.corr_failures[:2], default=str)[:1500])
     for c in res.corr_failures[:3]:
@@ -128,7 +151,10 @@ def main():
             else:
                 res.notes.append('known finding %s no longer reproduces' % e['key'])
         elif e.get('status') == 'fixed' and 'input' in e and hasattr(mod, 'replay'):
-            out = mod.replay({'input': e['input'], 'key': e['key']})
+            try:
+                out = mod.replay({'input': e['input'], 'key': e['key']})
+            except Exception as ex:
+                out = {'fails': True, 'what': 'replay raised %r' % ex}
             if out.get('fails'):
                 res.oracle_failures.append({'key': e['key'] + '/returned', 'what': 'fixed finding returned: ' + e['what'],
                                             'input': e['input']})
